@@ -266,6 +266,15 @@ impl Tree {
         let mut t = Tree { root: "top/main.ledger".to_string(), placement: vec![String::new(); entries.len()], entry_line: vec![0; entries.len()], ..Default::default() };
         let root = t.root.clone();
         t.build(rng, entries, 0, entries.len(), &root, 0, false);
+        // a file may end with its last line, an include among them, without a final newline
+        let names: Vec<String> = t.files.keys().cloned().collect();
+        for name in names {
+            let c = t.files.get_mut(&name).unwrap();
+            if c.trim_end().lines().last().map(|l| l.starts_with("include ")).unwrap_or(false) && rng.chance(1, 3) {
+                *c = c.trim_end().to_string();
+                t.feature("include-line-ended-by-end-of-file");
+            }
+        }
         t
     }
 
